@@ -164,6 +164,19 @@ pub fn multifile_symbols(rng: &mut Rng, disk: &mut crate::disk::Disk) -> String 
 /// errors whose diagnostics point into the library, in listing formats that
 /// read spans of library files.
 pub fn std_program(rng: &mut Rng) -> Vec<u8> {
+    if rng.chance(1, 3) {
+        // the NES platform files of the library: banks, a header and vectors
+        // that come out of library files (spans into several of them)
+        let mut s = String::from("#include \"<std>/platform/nes/cpu.asm\"\n#include \"<std>/platform/nes/ines_nrom.asm\"\n#include \"<std>/platform/nes/constants.asm\"\n\n#bank zeropage\nvarTimer: #res 1\n\n#bank prg\nreset:\n");
+        for _ in 0..rng.range(1, 6) {
+            s.push_str(*rng.pick(&["    sei\n", "    cld\n", "    ldx #0x40\n", "    stx APU_FRMCNTR\n", "    inx\n", "    stx PPU_CTRL\n", "    lda varTimer\n", "    jmp reset\n"]));
+        }
+        s.push_str("nmi:\n    inc varTimer\n    rti\nirq:\n    rti\n");
+        if rng.chance(1, 4) {
+            s.push_str("    lda #0x1234\n");
+        }
+        return s.into_bytes();
+    }
     let mut s = String::from("#include \"<std>/cpu/6502.asm\"\n\nstart:\n");
     // half of the programs assemble: no out-of-range operand, and `far`
     // is only branched to when it exists and is in reach
@@ -551,7 +564,7 @@ pub fn feature_mix_program(rng: &mut Rng) -> Vec<u8> {
     let clean = rng.chance(1, 2);
     for i in 0..nblocks {
         // (block 16, addresses beyond 16 bits, a little more often)
-        let mut kind = if rng.chance(1, 12) { 16 } else { rng.below(22) };
+        let mut kind = if rng.chance(1, 12) { 16 } else { rng.below(23) };
         if clean && banked && kind == 16 {
             kind = 4;
         }
@@ -637,6 +650,15 @@ pub fn feature_mix_program(rng: &mut Rng) -> Vec<u8> {
             21 => {
                 // every candidate fails, each with its own message
                 s.push_str(&format!("#ruledef\n{{\n    op5{i} {{v}} =>\n    {{\n        assert(v < 10, \"too big for the short form\")\n        0x10 @ v`8\n    }}\n    op5{i} {{v}} =>\n    {{\n        assert(v > 1000, \"too small for the long form\")\n        0x11 @ v`16\n    }}\n    op5{i} {{v: u4}} => 0x12 @ v @ 0x0`4\n    op5{i} {{v}} =>\n    {{\n        assert(v > 1000, \"too small for the long form\")\n        0x13 @ v`16\n    }}\n}}\nop5{i} {}\n", if clean { rng.pick(&["5", "7", "5"]) } else { rng.pick(&["500", "5", "2000", "12", "100"]) }, i = i));
+            }
+            22 if !clean && !banked => {
+                // a function where only a settled value can stand: a bank
+                // field, an #if condition (diagnosed, never a crash)
+                if rng.chance(1, 2) {
+                    s.push_str(&format!("#fn base{i}() => 0x100\n#bankdef late{i}\n{{\n    #addr base{i}()\n    #size 0x10\n    #outp 8 * 0x1000\n}}\n", i = i));
+                } else {
+                    s.push_str(&format!("#fn flag{i}() => 1 == 1\n#if flag{i}()\n{{\n    #d8 {}\n}}\n", rng.below(200), i = i));
+                }
             }
             16 => {
                 // addresses beyond 16 bits (formats with an address field)
@@ -746,7 +768,7 @@ pub fn pool_job(seed: u64, k: usize, c: &Corpus) -> Job {
         let mut spec = Spec::simple(&root);
         spec.groups.clear();
         for _ in 0..rng.range(1, 3) {
-            let f = *rng.pick(&["symbols", "mesen-mlb", "annotated", "annotatedbin", "addrspan", "tcgame", "binary", "intelhex"]);
+            let f = if rng.chance(1, 6) { cmdline::draw_good_format(&mut rng) } else { rng.pick(&["symbols", "mesen-mlb", "annotated", "annotatedbin", "addrspan", "tcgame", "binary", "intelhex"]).to_string() };
             let n = spec.groups.len();
             spec.groups.push(Group { format: Some(f.to_string()), out: if rng.chance(2, 3) { Some(format!("out{}.txt", n)) } else { None }, print: rng.chance(1, 5) });
         }
